@@ -914,10 +914,13 @@ class MatrixProduct:
         else:
             assert self.qnidx == self.site_num-1
 
+        # nothing to do if ``stop_idx`` is the current center or if there is only one site
+        idx = None
         for idx in self.iter_idx_list(full=False, stop_idx=stop_idx):
             self._push_cano(idx)
         # can't iter to idx == 0 or idx == self.site_num - 1
-        if (not self.to_right and idx == 1) or (self.to_right and idx == self.site_num - 2):
+        if idx is not None and \
+                ((not self.to_right and idx == 1) or (self.to_right and idx == self.site_num - 2)):
             self._switch_direction()
         return self
 
